@@ -533,11 +533,26 @@ pub fn build_exec(scn: &C20Scn, v: &Variant, text: &str) -> (Fs, Exec, Option<St
             }
         }
     }
+    // a pre-existing output file may well be newer than the source (an earlier run wrote it)
+    let mut mtimes: BTreeMap<String, (i64, i64)> = BTreeMap::new();
+    if let (Some(ip), Some(op)) = (&in_path, &out_path) {
+        if ip != op && fs.contains_key(op) {
+            mtimes.insert(ip.clone(), (scn.now.0 - 86_400 * 3, 0));
+            if v.explicit_defaults & 0x20 != 0 {
+                mtimes.insert(op.clone(), (scn.now.0 - 86_400, 0));
+            } else {
+                mtimes.insert(op.clone(), (scn.now.0 - 86_400 * 10, 0));
+            }
+            if let Some(c) = &v.config {
+                mtimes.insert(c.path.clone(), (scn.now.0 - 86_400 * 5, 0));
+            }
+        }
+    }
     let sizeless = match (&v.input, &v.output, v.input_sizeless) {
         (Input::File { path, .. }, Output::Stdout, true) | (Input::File { path, .. }, Output::File { .. }, true) => vec![path.clone()],
         _ => vec![],
     };
-    (fs, Exec { argv, stdin, env: v.env.clone(), clock, io: v.io.clone(), stdout_tty: v.stdout_tty, sizeless }, out_path)
+    (fs, Exec { argv, stdin, env: v.env.clone(), clock, io: v.io.clone(), stdout_tty: v.stdout_tty, sizeless, mtimes }, out_path)
 }
 
 pub fn run(scn: &C20Scn, stats: &mut RunStats) -> Option<Violation> {
@@ -635,7 +650,7 @@ pub fn run(scn: &C20Scn, stats: &mut RunStats) -> Option<Violation> {
         }
         // conservation on the file system
         for (p, c) in &before {
-            if Some(p) == out_path.as_ref() {
+            if Some(p) == out_path.as_ref() || crate::world::is_meta_key(p) {
                 continue;
             }
             match fs.get(p) {
@@ -645,7 +660,7 @@ pub fn run(scn: &C20Scn, stats: &mut RunStats) -> Option<Violation> {
             }
         }
         for p in fs.keys() {
-            if !before.contains_key(p) && Some(p) != out_path.as_ref() {
+            if !before.contains_key(p) && Some(p) != out_path.as_ref() && !crate::world::is_meta_key(p) {
                 return fail("C20.fs_conservation", "created-extra-file".into(), format!("unexpected file {:?} appeared", p));
             }
         }
